@@ -1,13 +1,26 @@
 ----------------------------- MODULE MC_Resolve -----------------------------
 EXTENDS Resolve, Json, IOUtils
 CONSTANTS Mode, N, Part, Parts
-Comp == [k : 0..3, half : BOOLEAN, loop : {"p", "a", "N"}, act : 1..2, fits : BOOLEAN, wrap : BOOLEAN]
+Comp == [k : 0..3, half : BOOLEAN, loop : {"p", "a", "N"}, act : 1..2, fits : BOOLEAN, wrap : BOOLEAN, doomed : BOOLEAN]
+(* at most one competitor is stopped during the event, and it is a plain one *)
+DoomOK(s) == /\ Cardinality({i \in 1..Len(s) : s[i].doomed}) <= 1
+             /\ \A i \in 1..Len(s) : s[i].doomed => (~s[i].wrap /\ ~s[i].half)
 Data == IF Mode = "judge" THEN JsonDeserialize(IOEnv.TRACE_FILE) ELSE <<>>
 VARIABLES cs, n
 H(s) == LET RECURSIVE G(_) G(i) == IF i = 0 THEN 7 ELSE (G(i - 1) * 31 + s[i].k * 5 + s[i].act * 3 + (IF s[i].half THEN 1 ELSE 0)
-                                         + (IF s[i].fits THEN 2 ELSE 0) + (IF s[i].wrap THEN 23 ELSE 0) + (IF s[i].loop = "a" THEN 11 ELSE IF s[i].loop = "N" THEN 17 ELSE 0)) % 9973
+                                         + (IF s[i].fits THEN 2 ELSE 0) + (IF s[i].wrap THEN 23 ELSE 0) + (IF s[i].doomed THEN 29 ELSE 0) + (IF s[i].loop = "a" THEN 11 ELSE IF s[i].loop = "N" THEN 17 ELSE 0)) % 9973
         IN G(Len(s)) % Parts
-Init == \/ Mode = "emit" /\ n = 0 /\ cs \in [1..N -> Comp] /\ H(cs) = Part
+(* the first competitor is filtered by the partition before the others are enumerated (the product is 5*10^7 for N = 3) *)
+Hc(c) == c.k * 5 + c.act * 3 + (IF c.half THEN 1 ELSE 0) + (IF c.fits THEN 2 ELSE 0) + (IF c.wrap THEN 23 ELSE 0) + (IF c.doomed THEN 29 ELSE 0)
+         + (IF c.loop = "a" THEN 11 ELSE IF c.loop = "N" THEN 17 ELSE 0)
+P1 == IF Parts % 16 = 0 THEN 16 ELSE 1
+HP(s) == LET RECURSIVE G(_) G(i) == IF i = 0 THEN 7 ELSE (G(i - 1) * 31 + Hc(s[i])) % 9973 IN G(Len(s)) % (Parts \div P1)
+Init == \/ /\ Mode = "emit" /\ n = 0
+           /\ \E c1 \in Comp :
+                 /\ Hc(c1) % P1 = Part % P1
+                 /\ \E rest \in [2..N -> Comp] :
+                       LET s == [i \in 1..N |-> IF i = 1 THEN c1 ELSE rest[i]] IN
+                       DoomOK(s) /\ HP(s) = Part \div P1 /\ cs = s
         \/ Mode = "judge" /\ n \in 1..Len(Data) /\ cs = <<>>
 Spec == Init /\ [][UNCHANGED <<cs, n>>]_<<cs, n>>
 Emit == Mode = "emit" => PrintT(ToJson([cs |-> cs]))
